@@ -288,6 +288,25 @@ NewLayer(kind, hp, P) ==
     ELSE LET s == SpatialIn(P) c == SpatialCfg(kind, hp, s) IN
          [kind |-> kind, cfg |-> c, in |-> s, out |-> OutShape(c), flatten |-> FALSE]
 
+\* a feedback block announced after output shape P: its inner layers are chained from P (no parameters yet);
+\* the block is accepted iff every inner layer is and the chain returns to the block's input shape
+RECURSIVE ChainFrom(_, _, _)
+ChainFrom(items, P, k) ==
+  IF k > Len(items) THEN <<>>
+  ELSE LET L == NewLayer(items[k].kind, items[k].hp, P) IN <<L>> \o ChainFrom(items, L.out, k + 1)
+BlockAccepted(items, P) ==
+  LET inner == ChainFrom(items, P, 1) IN
+  /\ \A k \in 1..Len(items) :
+        /\ AcceptsInput(items[k].kind, IF k = 1 THEN P ELSE inner[k - 1].out, FALSE)
+        /\ (items[k].kind = "dense") = (Len(IF k = 1 THEN P ELSE inner[k - 1].out) = 1)     \* blocks do not flatten / square inside
+        /\ Fits(inner[k].cfg)
+  /\ inner[1].in = inner[Len(inner)].out
+NewBlock(items, P, loops, inskips, outskips, acc) ==
+  LET inner == ChainFrom(items, P, 1) IN
+  [kind |-> "fb", inner |-> inner, loops |-> loops, inskips |-> inskips, outskips |-> outskips, acc |-> acc,
+   in |-> inner[1].in, out |-> inner[Len(inner)].out, flatten |-> FALSE,
+   cfg |-> [kind |-> "fb", act |-> "linear", bias |-> FALSE]]
+
 \* adding a dense layer after a spatial one makes the previous layer flatten its output
 MarkFlatten(layers, kind) ==
   IF kind = "dense" /\ layers # <<>> /\ Len(layers[Len(layers)].out) = 3
